@@ -17,7 +17,7 @@ ANY_MACROS = f"{REPO}/tests/macros/jasm_macros.yaml"
 
 # property -> list of (universe key in the export, options)
 PLAN = {
-    "C01": dict(export="Export_C01", parts=[(None, dict(flags=ALL4))],
+    "C01": dict(export="Export_C01", parts=[(None, dict(flags=ALL4, spellings=[{}, {"ints": True}]))],   # ints differ only in the thorough universe
                 mc=[("MC_C01", {"quick": "MC_C01_quick.cfg", "thorough": "MC_C01_thorough.cfg"})]),
     "C02": dict(export="Export_C02", parts=[(None, dict(flags=FF, spellings=[{"times": "body"}, {"times": "sib"}]))],
                 mc=[("MC_C02", {"quick": "MC_C02_quick.cfg", "thorough": "MC_C02_thorough.cfg"})]),
@@ -30,7 +30,7 @@ PLAN = {
                                             ("o", dict(flags=[(False, False), (True, True)])),
                                             ("r", dict(flags=FF, spellings=[{}, {"upper_suffix": True}]))],
                 mc=[("MC_C05", {"quick": "MC_C05_quick.cfg", "thorough": "MC_C05_thorough.cfg"})]),
-    "C06": dict(export="Export_C06", parts=[(None, dict(flags=[(False, False), (True, True)]))],
+    "C06": dict(export="Export_C06", parts=[(None, dict(flags=[(False, False), (True, True)], spellings=[{}, {"ints": True}]))],
                 mc=[("MC_C06", {"quick": "MC_C06_quick.cfg", "thorough": "MC_C06_thorough.cfg"})]),
     "C18": dict(export="Export_C18", parts=[(None, dict(flags=FF))],
                 mc=[("MC_C18", {"quick": "MC_C18_quick.cfg", "thorough": "MC_C18_thorough.cfg"})]),
@@ -62,7 +62,7 @@ def run_part(report, prop, key, u, opts, tier):
                 for rng in ranges:
                     extra = {"valid_addr_range": {"min": rng[0], "max": rng[1]}} if rng else None
                     doc = render.rule_doc(P, mfm, ofm, opt=sp, config_extra=extra)
-                    key = "upper" if sp.get("upper_suffix") else "sib" if sp.get("times") == "sib" else "body"
+                    key = "upper" if sp.get("upper_suffix") else "sib" if sp.get("times") == "sib" else "ints" if sp.get("ints") else "body"
                     if doc["pattern"] != tlc_docs[pi][key]:
                         raise MachineryError(f"render.py and JasmSyntax!Unparse disagree on {P}: "
                                              f"{doc['pattern']} vs {tlc_docs[pi][key]}")
